@@ -1,6 +1,6 @@
 CONSTANT DocSeq <- D3
 CONSTANT MaxSeq = 5
-CONSTANT MaxSteps = 7
+CONSTANT MaxSteps = 6
 CONSTANT MaxLens = {1, 2, 3}
 CONSTANT MinLens = {0}
 CONSTANT Lims = {0, 1, 2}
